@@ -62,6 +62,8 @@ def convert(ex, ins):
             ex.st.set(hn, vc.define(hn, hs, '(store %s %s (gs.runes %s))' % (ex.st.get(hn, hs), arr, x.term)))
             n = '(gs.rlen %s)' % x.term
             vc.assume('(and (<= 0 %s) (<= %s %d))' % (n, n, MAXLEN), ex.reach)
+            # decoding yields Unicode scalar values (U+FFFD for invalid bytes)
+            vc.assume_forall(ex.reach, lambda i, s=x.term: '(=> (and (<= 0 %s) (< %s (gs.rlen %s))) (scalar (gs.at %s %s)))' % (i, i, s, s, i))
             ex.setv(ins, V('(mkslice %s 0 %s %s)' % (arr, n, n), 'Slice', tts))
             return
         raise Unsupported('string to []%s' % etd.get('name'))
@@ -70,15 +72,16 @@ def convert(ex, ins):
         if etd['k'] == 'basic' and etd['name'] in ('int32', 'rune'):
             hn, hs = vc.elem_heap('Int')
             f = vc.ufun('gs.fromrunes', ['Arr:Int', 'Int', 'Int'], 'Str')
-            t = '(%s (select %s (s.arr %s)) (s.off %s) (s.len %s))' % (f, ex.st.get(hn, hs), x.term, x.term, x.term)
+            arr = vc.define('rarr', 'Arr:Int', '(select %s (s.arr %s))' % (ex.st.get(hn, hs), x.term))
+            t = vc.define('fromrunes', 'Str', '(%s %s (s.off %s) (s.len %s))' % (f, arr, x.term, x.term))
+            vc.assume('(= (gs.rlen %s) (s.len %s))' % (t, x.term), ex.reach)
+            vc.assume_forall(ex.reach, lambda i, t=t, arr=arr, x=x.term:
+                             '(=> (and (<= 0 %s) (< %s (s.len %s))) (= (gs.at %s %s) (fixrune (select %s (+ (s.off %s) %s)))))' % (i, i, x, t, i, arr, x, i))
             ex.setv(ins, V(t, 'Str', tts))
-            need_fromrunes(vc)
             return
         raise Unsupported('[]%s to string' % etd.get('name'))
     if fs == 'Int' and ts == 'Str':
-        f = vc.ufun('gs.fromrune', ['Int'], 'Str')
-        need_fromrune(vc)
-        ex.setv(ins, V('(%s (fixrune %s))' % (f, x.term), 'Str', tts))
+        ex.setv(ins, V(str_fromrune(vc, '(fixrune %s)' % x.term), 'Str', tts))
         return
     if fs == ts:
         ex.vals[ins['n']] = V(x.term, ts, tts)
@@ -497,3 +500,96 @@ def _rnd(ex, ins):
 def _unsupported(ex, ins):
     ref = new_ref(ex, ins['n'])
     ex.vals[ins['n']] = V(ref, 'Int', ins['t'])
+
+
+# ---- strings and strings.Builder ------------------------------------------------------------------------------
+# A Go string is abstracted to its sequence of decoded runes (gs.rlen, gs.runes/gs.at) plus its byte length
+# (gs.blen). Every constructor gets ground defining facts at the site where it is applied.
+
+UTF8LEN = '(ite (< %s 128) 1 (ite (< %s 2048) 2 (ite (< %s 65536) 3 4)))'
+
+
+def str_app(vc, s, r):
+    """s ++ [r] for a rune r that is already a scalar value (or U+FFFD)"""
+    f = vc.ufun('gs.app', ['Str', 'Int'], 'Str')
+    t = '(%s %s %s)' % (f, s, r)
+    key = ('app', t)
+    if key not in vc.str_facts:
+        vc.str_facts.add(key)
+        vc.assume('(and (= (gs.rlen %s) (+ (gs.rlen %s) 1)) (= (gs.runes %s) (store (gs.runes %s) (gs.rlen %s) %s)) (= (gs.blen %s) (+ (gs.blen %s) %s)) (>= (gs.rlen %s) 0))'
+                  % (t, s, t, s, s, r, t, s, UTF8LEN % (r, r, r), s))
+    return t
+
+
+def str_concat(vc, s, t2):
+    f = vc.ufun('gs.concat', ['Str', 'Str'], 'Str')
+    t = '(%s %s %s)' % (f, s, t2)
+    key = ('concat', t)
+    if key not in vc.str_facts:
+        vc.str_facts.add(key)
+        vc.assume('(and (= (gs.rlen %s) (+ (gs.rlen %s) (gs.rlen %s))) (= (gs.blen %s) (+ (gs.blen %s) (gs.blen %s))) (>= (gs.rlen %s) 0) (>= (gs.rlen %s) 0))'
+                  % (t, s, t2, t, s, t2, s, t2))
+        vc.assume_forall('true', lambda i, t=t, s=s, t2=t2:
+                         '(=> (and (<= 0 %s) (< %s (gs.rlen %s))) (= (gs.at %s %s) (ite (< %s (gs.rlen %s)) (gs.at %s %s) (gs.at %s (- %s (gs.rlen %s))))))'
+                         % (i, i, t, t, i, i, s, s, i, t2, i, s))
+    return t
+
+
+def str_fromrune(vc, r):
+    f = vc.ufun('gs.fromrune', ['Int'], 'Str')
+    t = '(%s %s)' % (f, r)
+    key = ('fromrune', t)
+    if key not in vc.str_facts:
+        vc.str_facts.add(key)
+        vc.assume('(and (= (gs.rlen %s) 1) (= (gs.at %s 0) %s) (= (gs.blen %s) %s))' % (t, t, r, t, UTF8LEN % (r, r, r)))
+    return t
+
+
+def builder_get(ex, ref):
+    return '(select %s %s)' % (ex.st.get('B.builder', 'Arr:Str'), ref)
+
+
+def builder_set(ex, ref, val):
+    vc = ex.vc
+    vc.heap_sorts['B.builder'] = 'Arr:Str'
+    ex.st.set('B.builder', vc.define('B.builder', 'Arr:Str', '(store %s %s %s)' % (ex.st.get('B.builder', 'Arr:Str'), ref, val)))
+
+
+BUILDER_MOD = [('B.builder', 'Arr:Str')]
+
+
+@model('(*strings.Builder).WriteRune', modifies=BUILDER_MOD, doc='appends the rune (U+FFFD if it is not a Unicode scalar value)')
+def _writerune(ex, ins):
+    b, r = _args(ex, ins)
+    vc = ex.vc
+    cur = vc.define('bld', 'Str', builder_get(ex, b.term))
+    builder_set(ex, b.term, str_app(vc, cur, '(fixrune %s)' % r.term))
+    if 'n' in ins:
+        ex.vals[ins['n']] = [V(vc.declare(ex.nm(ins['n'] + '$n'), 'Int'), 'Int', 'int'), V('a.nil', 'Any', 'error')]
+
+
+@model('(*strings.Builder).WriteString', modifies=BUILDER_MOD, doc='appends the string')
+def _writestring(ex, ins):
+    b, s = _args(ex, ins)
+    vc = ex.vc
+    cur = vc.define('bld', 'Str', builder_get(ex, b.term))
+    builder_set(ex, b.term, str_concat(vc, cur, s.term))
+    if 'n' in ins:
+        ex.vals[ins['n']] = [V('(gs.blen %s)' % s.term, 'Int', 'int'), V('a.nil', 'Any', 'error')]
+
+
+@model('(*strings.Builder).String', doc='the accumulated string')
+def _bstring(ex, ins):
+    b = _args(ex, ins)[0]
+    ex.setv(ins, V(builder_get(ex, b.term), 'Str', ins['t']))
+
+
+@model('(*strings.Builder).Len', doc='byte length of the accumulated string')
+def _blen(ex, ins):
+    b = _args(ex, ins)[0]
+    s = ex.vc.define('bld', 'Str', builder_get(ex, b.term))
+    ex.setv(ins, V('(gs.blen %s)' % s, 'Int', 'int'))
+    ex.vc.assume('(and (<= (gs.rlen %s) (gs.blen %s)) (<= (gs.blen %s) (* 4 (gs.rlen %s))) (<= 0 (gs.rlen %s)))' % (s, s, s, s, s), ex.reach)
+
+
+pure('strings.ReplaceAll')
